@@ -250,8 +250,30 @@ func (l *lowerer) attrBody(a *Attr, withDesc bool) []*dt.Node {
 func (l *lowerer) objectBody(t *Type) []*dt.Node {
 	var b []*dt.Node
 	var req []dt.Arg
+	if t.Extend != "" {
+		if r := l.d.TypeByName(t.Extend); r != nil {
+			b = append(b, dt.N("Extend", dt.Ref(r.Var)))
+		}
+	}
+	if t.Reference != "" {
+		if r := l.d.TypeByName(t.Reference); r != nil {
+			b = append(b, dt.N("Reference", dt.Ref(r.Var)))
+		}
+	}
 	for _, f := range t.Fields {
-		b = append(b, l.attribute(f))
+		if f.Inherit == "extend" {
+			continue // brought by Extend, requiredness included
+		}
+		if f.Inherit == "reference" {
+			// type, validations and default come from the referenced type
+			if f.Tag > 0 {
+				b = append(b, dt.N("Field", dt.I(int64(f.Tag)), dt.S(f.Name)))
+			} else {
+				b = append(b, dt.N("Attribute", dt.S(f.Name)))
+			}
+		} else {
+			b = append(b, l.attribute(f))
+		}
 		if f.Required {
 			req = append(req, dt.S(f.Name))
 		}
@@ -629,9 +651,24 @@ func (l *lowerer) payloadLike(fn string, a *Attr, creds []Cred, view string) *dt
 			credAttr[c.Attr] = c
 		}
 		var req []dt.Arg
+		if a.Type.Extend != "" {
+			if r := l.d.TypeByName(a.Type.Extend); r != nil {
+				body = append(body, dt.N("Extend", dt.Ref(r.Var)))
+			}
+		}
+		if a.Type.Reference != "" {
+			if r := l.d.TypeByName(a.Type.Reference); r != nil {
+				body = append(body, dt.N("Reference", dt.Ref(r.Var)))
+			}
+		}
 		for _, f := range a.Type.Fields {
+			if f.Inherit == "extend" {
+				continue
+			}
 			if c, ok := credAttr[f.Name]; ok {
 				body = append(body, l.credAttr(c, f))
+			} else if f.Inherit == "reference" {
+				body = append(body, dt.N("Attribute", dt.S(f.Name)))
 			} else {
 				body = append(body, l.attribute(f))
 			}
